@@ -217,7 +217,7 @@ impl Prop for C02 {
             format!("float inverse bound {}*n*eps*kappa_inf*max|X_exact| against the exact rational inverse", INV_C),
         ]
     }
-    fn stream_len(&self) -> usize {
+    fn stream_len(&self, _tier: Tier) -> usize {
         320
     }
     fn random_cases(&self, tier: Tier) -> usize {
